@@ -10,7 +10,13 @@ def run_property(pid, mod, tier, seed, t0):
     known = fw.load_known()
     notes = []
     broken = []           # names of theorems / correspondences that no longer check
-    # 1. translators
+    # 1. translators (the Float objectives are part of the driver: keep them in step with the source for every check)
+    if pid != "C17":
+        try:
+            import translate_objectives
+            translate_objectives.generate()
+        except Exception as e:
+            notes.append(f"objective translator: {e}")
     gen_info = {}
     if hasattr(mod, "regenerate"):
         gen_info = mod.regenerate(tier)
